@@ -185,8 +185,17 @@ func (w *Writer) Finish() {
 	}
 }
 
+// Point, when set, is a scheduling point of the controlled scheduler: it is
+// called at handler entry and exit so that a request can be parked inside its
+// handler while other threads run.
+var Point func()
+
 // Call is the CallFunc given to mux.
 func Call(w http.ResponseWriter, r *http.Request, route types.Route, h *H) {
+	if Point != nil {
+		Point()
+		defer Point()
+	}
 	o, _ := r.Context().Value(obsKey{}).(*Obs)
 	if o == nil {
 		o = &Obs{}
